@@ -126,8 +126,12 @@ func runC12(env *Env) {
 	}
 	// two tokens in one sub-process at the same time (a fork leads into it twice): the activations run one after
 	// the other, each runs the content, each hands its token back, and the instance completes only after both
-	for rnd := 0; rnd < 4 && !rep.Saturated(); rnd++ {
+	for rnd := 0; rnd < 12 && !rep.Saturated(); rnd++ {
+		burst := rnd >= 4 // the content ends in a burst of traces: A is followed by a fork to eight end events
 		cs := fmt.Sprintf("fork -> {S, G -> S}, S = start -> A -> end; second token enters while the first activation runs (round %d)", rnd)
+		if burst {
+			cs = fmt.Sprintf("fork -> {S, G -> S}, S = start -> A -> fork -> 8 end events; second token enters while the first activation runs (round %d)", rnd)
+		}
 		env.Current(cs)
 		p := &Prog{}
 		p.Node("start", "start")
@@ -137,9 +141,18 @@ func runC12(env *Env) {
 		sn.Sub = &Prog{nflow: 700}
 		sn.Sub.Node("start", "ss")
 		sn.Sub.Node("task", "A")
-		sn.Sub.Node("end", "se")
 		sn.Sub.Flow("ss", "A", "")
-		sn.Sub.Flow("A", "se", "")
+		if burst {
+			sn.Sub.Node("par", "SF")
+			sn.Sub.Flow("A", "SF", "")
+			for k := 0; k < 8; k++ {
+				sn.Sub.Node("end", fmt.Sprintf("se%d", k))
+				sn.Sub.Flow("SF", fmt.Sprintf("se%d", k), "")
+			}
+		} else {
+			sn.Sub.Node("end", "se")
+			sn.Sub.Flow("A", "se", "")
+		}
 		p.Node("task", "Z")
 		p.Node("end", "end")
 		p.Flow("start", "F", "")
